@@ -55,6 +55,15 @@ fn check(ctx: &mut Ctx, o: &Org, rp: Option<&str>, allow: bool, prov: Prov) {
     let f = fields(o, rp, allow, prov);
     let obs = guarded(|| {
         let v = RpIdVerifier::new(P(prov)).allows_insecure_localhost(allow);
+        // a verifier that has seen other ceremonies answers the same: before the pair under test it is asked about the
+        // same host and RP ID over https (and once more about the pair itself)
+        if let Org::Web(u) = o {
+            if u.scheme() != "https" {
+                let mut twin = u.clone();
+                if twin.set_scheme("https").is_ok() { let _ = v.assert_domain(&Origin::from(&twin), rp); }
+            }
+        }
+        if let Some(first) = make_origin(o) { let _ = v.assert_domain(&first, rp); }
         let origin = make_origin(o).unwrap();
         match v.assert_domain(&origin, rp) { Ok(d) => format!("ok {}", hexf(d.as_bytes())), Err(e) => werr(&e) }
     }).unwrap_or("panic".into());
@@ -234,11 +243,13 @@ pub fn gen(ctx: &mut Ctx) {
             }
         }
     }
-    // ---- every rule of the list as host and as RP ID of host + 1 label (thorough: all; quick: a seeded tenth)
+    // ---- every rule of the list as host and as RP ID of host + 1 label (thorough: all; quick: a seeded tenth, and
+    //      every rule of five labels or more: the deepest rules of the list are few)
     let stride = if ctx.thorough { 1 } else { 10 };
     let off = ctx.rng.below(stride as u64) as usize;
     for (i, (labels, kind)) in rules.iter().enumerate() {
-        if i % stride != off { continue; }
+        if i % stride != off && labels.len() < 5 { continue; }
+        if labels.len() >= 5 { ctx.stat("rp.deep_rule_as_rpid"); }
         let mut base = labels.clone();
         if *kind == 2 { base.insert(0, rand_label(ctx)); }
         let name = base.join(".");
